@@ -38,10 +38,28 @@ def fmtOut : Out Int → String
   | .bool b => fmtBool b
   | .panicIndex => "panic:index"
 
-def observe (stepf : σ → Op Int → σ × Out Int) (s : σ) (op : Option (Op Int)) : σ × String :=
-  let (s, r) := match op with
-    | some op => let (s', o) := stepf s op; (s', fmtOut o)
-    | none => (s, "-")
+/-- One op line.  `grow`/`popn` are the bulk forms used by the large cases (`pushn a n`, `addn a n`, `popn k`):
+`n` single `push`/`add` steps with the values `a, a+1, …`, resp. `k` single `pop` steps reporting value, ok, `Len`
+and `Top` after each — through the same `step` function as every other line. -/
+inductive Cmd where
+  | none | one (op : Op Int) | grow (add : Bool) (a : Int) (n : Nat) | popn (k : Nat)
+
+def growN (stepf : σ → Op Int → σ × Out Int) (add : Bool) (s : σ) (a : Int) : Nat → σ
+  | 0 => s
+  | n + 1 => growN stepf add (stepf s (if add then .add a else .push a)).1 (a + 1) n
+
+def popN (stepf : σ → Op Int → σ × Out Int) (s : σ) : Nat → List String → σ × List String
+  | 0, acc => (s, acc.reverse)
+  | k + 1, acc =>
+    let (s', o) := stepf s .pop
+    popN stepf s' k (s!"{fmtOut o},{fmtOut (stepf s' .len).2},{fmtOut (stepf s' .top).2}" :: acc)
+
+def observe (stepf : σ → Op Int → σ × Out Int) (s : σ) (c : Cmd) : σ × String :=
+  let (s, r) := match c with
+    | .none => (s, "-")
+    | .one op => let (s', o) := stepf s op; (s', fmtOut o)
+    | .grow add a n => (growN stepf add s a n, "-")
+    | .popn k => let (s', l) := popN stepf s k []; (s', "[" ++ " ".intercalate l ++ "]")
   let o (op : Op Int) := fmtOut (stepf s op).2
   (s, s!"{r} len={o .len} empty={o .isEmpty} top={o .top} slice={o .slice}")
 
@@ -55,15 +73,21 @@ def parseOp : List String → Option (Op Int)
   | ["each", k] => k.toNat?.map .each
   | _ => none
 
+def parseCmd : List String → Option Cmd
+  | ["pushn", a, n] => do some (.grow false (← a.toInt?) (← n.toNat?))
+  | ["addn", a, n] => do some (.grow true (← a.toInt?) (← n.toNat?))
+  | ["popn", k] => k.toNat?.map .popn
+  | toks => (parseOp toks).map .one
+
 def step (s : S) (toks : List String) (impl : String) : S × String × String :=
-  let go (s : S) (op : Option (Op Int)) : S × String × String :=
-    let (m', mo) := observe Stack.step s.m op
-    let (d', sp) := observe Lifo.step s.d op
+  let go (s : S) (c : Cmd) : S × String × String :=
+    let (m', mo) := observe Stack.step s.m c
+    let (d', sp) := observe Lifo.step s.d c
     ({ m := m', d := d' }, mo, verdict (sp == impl) s!"spec: {sp}")
   match toks with
-  | "reset" :: _ => go {} none
-  | _ => match parseOp toks with
-    | some op => go s (some op)
+  | "reset" :: _ => go {} .none
+  | _ => match parseCmd toks with
+    | some c => go s c
     | none => (s, "bad-op", "bad bad-op")
 
 def stream : Stream := { name := "C10.stack", σ := S, init := {}, step := step }
